@@ -7,6 +7,11 @@ func f4Job(name, entry string, n int, reach []string, asserts []string, bound st
 		Bound: bound + "; leaf kinds range over NilClass/Integer/String/Bool (thorough tier: + Float, Symbol); configuration: core subset of the shipped test configuration plus the verification-only class Sym"}
 }
 
+func withBudget(b int, j *Job) *Job {
+	j.Budget = b
+	return j
+}
+
 var f4Stubs = []string{"verification-only builtin class Sym (installed through the real defineBuiltinStaticMethod): Sym.a/b/c return a value of solver-chosen kind (NilClass, Integer, String, Bool, Float, Symbol), Sym.u / Sym.w unions of 2 / 3 distinct solver-chosen kinds", "os.Exit / fmt.Println captured"}
 
 func init() {
